@@ -19,33 +19,33 @@ Proof.
   apply str_eqb_true in E. contradiction.
 Qed.
 
-Lemma ttr_nodup : forall e bs t r, fixoid e = true -> binders_checked bs t -> NoDup (map fst bs) ->
+Lemma ttr_nodup : forall e opt bs t r, fixoid e = true -> binders_checked bs t -> NoDup (map fst bs) ->
   (forall k, In k (map fst bs) -> get r k = None) ->
-  ttr e false bs t r r = Ok (option_map (fun r0 => r ++ r0) (brow bs t)).
+  ttr e opt bs t r r = Ok (option_map (fun r0 => r ++ r0) (brow opt bs t)).
 Proof.
-  intros e bs t. induction bs as [|[k x] bs IH]; intros r Hf Hbc Hnd Hfresh.
+  intros e opt bs t. induction bs as [|[k x] bs IH]; intros r Hf Hbc Hnd Hfresh.
   - cbn. rewrite app_nil_r. reflexivity.
-  - cbn [ttr brow]. rewrite (extract_xval e false x t Hf (Hbc k x (or_introl eq_refl))), xval_false.
-    destruct (xspec x t) as [v|]; [|reflexivity].
+  - cbn [ttr brow]. rewrite (extract_xval e opt x t Hf (Hbc k x (or_introl eq_refl))).
+    destruct (xval opt x t) as [v|]; [|reflexivity].
     rewrite (Hfresh k (or_introl eq_refl)). rewrite set_fresh by (apply Hfresh; left; reflexivity).
     cbn in Hnd. inversion Hnd as [|? ? Hnotin Hnd']; subst.
     rewrite IH; try assumption.
-    + destruct (brow bs t); cbn; [rewrite <- app_assoc; reflexivity|reflexivity].
+    + destruct (brow opt bs t); cbn; [rewrite <- app_assoc; reflexivity|reflexivity].
     + eapply binders_checked_tail; eauto.
     + intros k' Hk'. apply get_snoc_other; [apply Hfresh; right; exact Hk'|]. intro; subst. contradiction.
 Qed.
 
-Lemma spec_bind_nodup : forall bs t r, NoDup (map fst bs) ->
+Lemma spec_bind_nodup : forall opt bs t r, NoDup (map fst bs) ->
   (forall k, In k (map fst bs) -> get r k = None) ->
-  spec_bind false bs t r = option_map (fun r0 => r ++ r0) (brow bs t).
+  spec_bind opt bs t r = option_map (fun r0 => r ++ r0) (brow opt bs t).
 Proof.
-  induction bs as [|[k x] bs IH]; intros t r Hnd Hfresh.
+  intros opt. induction bs as [|[k x] bs IH]; intros t r Hnd Hfresh.
   - cbn. rewrite app_nil_r. reflexivity.
-  - cbn [spec_bind brow]. destruct (xspec x t) as [v|]; [|reflexivity].
+  - cbn [spec_bind brow]. fold (xval opt x t). destruct (xval opt x t) as [v|]; [|reflexivity].
     rewrite (Hfresh k (or_introl eq_refl)). rewrite set_fresh by (apply Hfresh; left; reflexivity).
     cbn in Hnd. inversion Hnd as [|? ? Hnotin Hnd']; subst.
     rewrite IH; try assumption.
-    + destruct (brow bs t); cbn; [rewrite <- app_assoc; reflexivity|reflexivity].
+    + destruct (brow opt bs t); cbn; [rewrite <- app_assoc; reflexivity|reflexivity].
     + intros k' Hk'. apply get_snoc_other; [apply Hfresh; right; exact Hk'|]. intro; subst. contradiction.
 Qed.
 
